@@ -14,7 +14,7 @@ trap 'git -C /repo checkout -- . ; "$HERE/build.sh" >/dev/null 2>&1' EXIT
 rc=0
 for id in "$@"; do
 	echo "=== $id ($tier) with $(basename "$(dirname "$patch")")/$(basename "$patch")"
-	( cd "$HERE" && ./check "$id" --tier "$tier" --no-evidence ${MUT_ARGS:-} ) 2>&1 | grep -E "VIOLATION|KNOWN-FINDING|HARNESS-ERROR|class:|runs=" | cut -c1-${MUT_COLS:-400}
+	( cd "$HERE" && ./check "$id" --tier "$tier" --no-evidence ${MUT_ARGS:-} ) 2>&1 | grep -E "VIOLATION|HARNESS-ERROR|class:|runs=" | awk -v m=${MUT_LINES:-6} '/runs=/{print; next} n<m{print; n++}' | cut -c1-${MUT_COLS:-300}
 	r=${PIPESTATUS[0]}
 	[ "$r" != 0 ] && rc=$r
 done
